@@ -132,7 +132,11 @@ func c02(r *report.Run) {
 		for _, b := range bounds {
 			raw = append(raw, fmt.Sprintf("len(%s..%s)", a, b), fmt.Sprintf("I in %s..%s", a, b), fmt.Sprintf("len(%s..%s) == 0 or (%s..%s)[0] == %s", a, b, a, b, a))
 		}
+		raw = append(raw, fmt.Sprintf("F + %s + 1", a), fmt.Sprintf("F32 + 1 + %s", a), fmt.Sprintf("%s + F + 1", a))
 		raw = append(raw, fmt.Sprintf("%s + 1", a), fmt.Sprintf("%s * 2", a), fmt.Sprintf("-(%s)", a), fmt.Sprintf("%s - 2", a), fmt.Sprintf("I in [%s, 1]", a), fmt.Sprintf("%s %% 7", a), fmt.Sprintf("%s / -1", a))
+	}
+	for _, chain := range []string{"F32 + 1 + 1", "(F + 1) + 1", "F * 3 * 3", "F32 * 3 * 3", "F + 1 + 1 + 1", "1 + F + 1", "F - 1 - 1", "I64 + 1 + 1", "U8 + 200 + 100", "I8 * 100 * 2", "F / 3 / 3", "F + 2 * 1 + 1", "F32 + 1 + 1 == F32", "(F + 1 + 1) in [1, 2]"} {
+		raw = append(raw, chain)
 	}
 	var rawRuns int64
 	for i, src := range raw {
@@ -149,9 +153,12 @@ func c02(r *report.Run) {
 				}
 				continue
 			}
-			for _, iv := range []int{0, 1, 1000000} {
+			for vi, iv := range []int{0, 1, 1000000} {
 				env := henv.Make(henv.Val{})
 				env.I = iv
+				env.F = []float64{9007199254740992, 0.1, 1e16}[vi]
+				env.F32 = []float32{16777216, 0.1, 3e7}[vi]
+				env.I64, env.U8, env.I8 = int64(iv), uint8(200), int8(100)
 				a, ea := lib.Run(pN, *env)
 				b, eb := lib.Run(pO, *env)
 				rawRuns += 2
